@@ -43,6 +43,7 @@ CONSTANTS Methods,    \* subset of {"cosine", "corr", "rho-a", "cosine_cov", "co
           GroupBys,   \* value mode: rdm descriptors the groups are formed by
           ThinS,      \* value mode: keep one stack in ThinS (singleton groups; 1 = all)
           ThinG,      \* ... and one in ThinG for non-singleton groupings
+          ThinR,      \* value mode: keep one admissible row in ThinR before stacks are formed (1 = all)
           Xforms,     \* set of <<a, b, c>>, a, c > 0: x |-> (a x + b) / c applied to one data RDM
           ByFilter,   \* proto mode: allowed <<rdm descriptor, pattern descriptor>> pairs ({} = all)
           CvCat,      \* value mode, cross-validation: catalogue of fold structures (Case records)
@@ -165,11 +166,16 @@ XfRow(x, t) == [k \in 1..Len(x) |-> IF x[k] = NaN THEN NaN ELSE t[1] * x[k] + t[
 NonConst(x) == \E j \in 1..Len(x) : x[j] # x[1]
 RowSet(mask) == {x \in [1..L -> {NaN} \cup (0..ValMax)] : MaskOf(x) = mask /\ NonConst(Compact(x))}
 RowKey(x) == SumS([k \in 1..Len(x) |-> (x[k] + 1) * ((ValMax + 2) ^ (k - 1))])
-SortedOK(v, by) == \A r \in 1..NR : \A s \in 1..NR :
-                     (r < s /\ (by # "grp" \/ Grp(r) = Grp(s))) => RowKey(v[r]) <= RowKey(v[s])
-ThinOK(v, by) == LET th == IF by = "grp" THEN ThinG ELSE ThinS IN
-                 th = 1 \/ SumS([r \in 1..NR |-> RowKey(v[r]) * (2 * r + 1)]) % th = 0
-Stacks(mask, by) == {v \in [1..NR -> RowSet(mask)] : SortedOK(v, by) /\ ThinOK(v, by)}
+\* rows are thinned first (ThinR), stacks are kept sorted (within groups) and thinned again
+RowSetOf == [mask \in Masks |-> {x \in RowSet(mask) : ThinR = 1 \/ RowKey(x) % ThinR = 0}]
+SortedKs(ks, by) == \A r \in 1..NR : \A s \in 1..NR :
+                      (r < s /\ (by # "grp" \/ Grp(r) = Grp(s))) => ks[r] <= ks[s]
+ThinKs(ks, by) == LET th == IF by = "grp" THEN ThinG ELSE ThinS IN
+                  th = 1 \/ SumS([r \in 1..NR |-> ks[r] * (2 * r + 1)]) % th = 0
+Stacks(mask, by) == {v \in [1..NR -> RowSetOf[mask]] :
+                       LET ks == [r \in 1..NR |-> RowKey(v[r])] IN SortedKs(ks, by) /\ ThinKs(ks, by)}
+\* constant-level definitions: TLC evaluates them once
+StacksBy == [by \in GroupBys \cup {"subj"} |-> UNION {Stacks(mask, by) : mask \in Masks}]
 
 Common == /\ objs = [o \in 1..MaxObj |-> IF o = 1 THEN Source ELSE Null] /\ hist = <<>> /\ stage = 1
           /\ pc = "start" /\ g = 0 /\ pred = NoPred /\ upper = NoPred /\ res = <<>> /\ cand = <<>> /\ xf = <<>>
@@ -177,13 +183,16 @@ VInit == /\ Common
          /\ fc \in {Case(1, "loo_rdm", by, "", 0, 0, FALSE, <<>>) : by \in GroupBys}
          /\ folds = Folds(fc) /\ src = SrcOb(fc.src) /\ splits = SplitsR(fc)
          /\ api = "boot" /\ meth \in Methods
-         /\ val \in UNION {Stacks(mask, fc.byR) : mask \in Masks}
+         /\ val \in StacksBy[fc.byR]
 \* value mode for cv_noise_ceiling: a fold structure from the catalogue, singleton or grouped test sets
 VInitCv == /\ Common
            /\ fc \in CvCat
            /\ folds = Folds(fc) /\ src = SrcOb(fc.src) /\ splits = SplitsR(fc)
            /\ api = "cv" /\ meth \in Methods
-           /\ val \in UNION {Stacks(mask, "subj") : mask \in Masks}
+           /\ val \in StacksBy["subj"]
+           \* admissible: no RDM is constant on the test conditions of a fold it takes part in
+           /\ \A f \in DOMAIN folds : \A ob \in {folds[f].ceil, folds[f].test} :
+                 \A r \in 1..Len(ob.rows) : NonConst(Compact(RowVals(ob, r)))
 
 \* folds the code can score: a ceiling set exists, at least 3 test conditions, something to pool
 Evaluable(c) == LET FF == Folds(c) IN
@@ -260,7 +269,7 @@ FoldStat(f) == LET F == folds[f]  rows == ObVals(F.ceil)  trows == ObVals(F.test
    [train |-> F.ceil.rows, test |-> F.test.rows, stat |-> PoolStat(meth, rows),
     \* rho-a exactly: lower_f = 3 * rho / (nt * (n^3 - n))
     rho |-> IF meth = "rho-a" THEN RhoSum(RankPool2(rows), trows) ELSE 0,
-    rhoUp |-> IF meth = "rho-a" THEN RhoSum(RankPool2(val), trows) ELSE 0,
+    rhoUp |-> IF meth = "rho-a" /\ api = "boot" THEN RhoSum(RankPool2(val), trows) ELSE 0,
     nt |-> Len(trows), tt |-> F.test.vec[1]]
 EmitNC ==
   /\ (pc = "done" /\ Mode = "value") =>
